@@ -126,6 +126,16 @@ def run(ctx):
             "See Roe v. Wade, 410 U.S. 113, 120; Doe v. Bolton, 410 U.S. 179. Roe at 121; Doe at 180."]
     for _ in range(1500 if th else 150):
         docs.append(textgen.document(rng, n_events=rng.choice([3, 5, 8]), pool=rng.choice([None, ["U.S.", "S. Ct.", "F.3d", "L. Ed. 2d"]])))
+    # chained numbers: the page of one citation is at the same time the volume of the next one (candidates that
+    # overlap in one number), with nominative and ordinary reporters on either side
+    docs += ["See 2 Cooke, 93 Wn. App. 526, 529 (1999).", "1 Thompson 394 U. S. 618", "In re Cooke, 93 Wn. App. 526"]
+    for _ in range(300 if th else 40):
+        r1 = rng.choice(textgen.NOMINATIVE + ["U.S.", "F.2d", "Mass."])
+        r2 = rng.choice(["U. S.", "Wn. App.", "F.3d", "S. Ct."] + textgen.NOMINATIVE)
+        mid = rng.choice([3, 12, 93, 394])
+        lead = rng.choice(["See ", "", "In re ", f"{rng.choice(textgen.NAMES)} v. "])
+        v1 = rng.choice(["", "2 ", "12 ", "347 "])
+        docs.append(f"{lead}{v1}{r1}{rng.choice([',', ''])} {mid} {r2} {rng.choice([5, 526])}{rng.choice(['', ', 529 (1999).', '.'])}")
     for d in docs:
         try:
             cs = get_citations(d)
